@@ -81,6 +81,11 @@ class StochasticAtomGraph:
             element_rhs_i = element_lhs_i + 1
             element_rhs = self._big_smi_mol.elements[element_rhs_i]
             for bd_lhs in element_lhs.bond_descriptors:
+                # No transition leaves an end group.
+                if isinstance(element_lhs, Stochastic) and _find_bd_token(
+                    element_lhs, bd_lhs
+                ) >= len(element_lhs.repeat_tokens):
+                    continue
                 for bd_rhs in element_rhs.bond_descriptors:
                     if bd_lhs.is_compatible(bd_rhs):
                         try:
